@@ -207,11 +207,19 @@ func c05Process(c *Ctx) {
 	parallel(c, n, func(i int, r *RNG) {
 		words := []string{"foo", "bar", "fo/o", "x_foo", "Foo Bar", "f o o", "oof", "a/b/foo.go", "src/foo/bar", "ffoo", "foofoo", " foo ", "fóo", "FOO"}
 		nl := 5 + r.Intn(120)
+		big := r.Chance(1, 3)
+		if big {
+			nl = 150 + r.Intn(300) // several chunks, hence several partitions of the matcher
+		}
 		lines := make([]string, nl)
 		for k := range lines {
 			lines[k] = Pick(r, words) + Pick(r, []string{"", "/", " ", "_", "x"}) + Pick(r, words)
 			if r.Chance(1, 4) {
 				lines[k] = fmt.Sprintf("%s%d", lines[k], r.Intn(50))
+			}
+			if big {
+				// distinct lines with many rank ties across chunks: only the input position can order them
+				lines[k] = fmt.Sprintf("%s %04d", Pick(r, []string{"foo", "foo", "x_foo", "fo/o"}), k)
 			}
 		}
 		sub := []string{}
@@ -229,7 +237,7 @@ func c05Process(c *Ctx) {
 		if r.Chance(1, 4) {
 			args = append(args, "--scheme="+Pick(r, []string{"default", "path", "history"}))
 		}
-		if r.Chance(1, 5) {
+		if r.Chance(1, 5) || (big && r.Chance(1, 2)) {
 			args = append(args, "--tac")
 		}
 		if r.Chance(1, 6) {
